@@ -105,7 +105,8 @@ func leavesForHash(blobs storage.Store, hash Key, leafSize uint32, prefix string
 	if err != nil {
 		return nil, err
 	}
-	return verifiedKeys(b, leafSize)
+	// the blob must be the root blob of this very hash: a consistent root blob of some other object is not acceptable
+	return LeafKeys(hash, b, leafSize)
 }
 
 // bytesFromRoot reads the blob referred to by a root hash key
